@@ -27,7 +27,7 @@ def fs_json(inst, exp, faults=None, pre=None):
     for t in sorted(exp["tasks"], key=lambda t: (t["proc"], t["k"])):
         sig = t["key"].split(":", 1)[1]
         tasks.append(dict(id=t["key"], ins=t["ins"], outs=t["outs"], extras=extras_of(inst, t["proc"], sig)))
-    return json.dumps(dict(tasks=tasks, faults=faults if faults is not None else norm_inst(inst)["faults"],
+    return json.dumps(dict(tasks=tasks, faults=model_faults(faults if faults is not None else norm_inst(inst)["faults"]),
                            pre=pre if pre is not None else norm_inst(inst)["pre"]))
 
 def closed_fs(inst, exp, maxruns=3, weak=(), faults=None, env=("crash", "cleanup", "rerun", "delete"), timeout=600, workers=4):
